@@ -341,3 +341,7 @@ mod tests {
         Ok(())
     }
 }
+
+#[cfg(kani)]
+#[path = "/verif/harness/fasta/indexer.rs"]
+mod verif_kani;
